@@ -4,7 +4,8 @@ JSON-lines driver for E5 (Graph model).  Run with
 One JSON object per input line, one JSON object per output line.
 
   {"op":"topo","edges":[[s,t],...]}                         edges in add_edge order
-      -> {"nodes":[...],"ok":[...]} | {"nodes":[...],"cycle":[u,v]} | {"nodes":[...],"internal":true}
+      -> {"nodes":[...],"edges":[[i,[j,...]],...],"ok":[...]} | {...,"cycle":[u,v]} | {...,"internal":true}
+         (nodes / edges = `self.nodes` / `self.edges_dict.items()` after the add_edge calls)
   {"op":"reorder","order":[k,...],"dests":[d,...]}
       -> {"perm":[i,...]}      indices into dests, in the order `ActionLink.reorder` returns the components
   {"op":"target_node","key":k} -> {"node":n}
@@ -58,7 +59,10 @@ def step (j : Json) : Json :=
   match op with
   | "topo" =>
     let es := edgeList j "edges"
-    Json.mkObj ([("nodes", strArr (build es).nodes)] ++ topoFields (topo es))
+    let g := build es
+    Json.mkObj ([("nodes", strArr g.nodes),
+      ("edges", .arr (g.edges.map fun p => Json.arr #[Json.num (JsonNumber.fromNat p.1),
+        .arr (p.2.map fun i => Json.num (JsonNumber.fromNat i)).toArray]).toArray)] ++ topoFields (topo es))
   | "reorder" =>
     let dests := strList j "dests"
     let comps : List (Nat × String) := (List.range dests.length).zip dests
